@@ -1028,6 +1028,7 @@ func (context *layoutContext) makeAllPages(rootBox bo.BlockLevelBoxITF, html *tr
 			reportedFootnotes = nil
 			out = append(out, pages[i])
 		}
+		verifPageMade(context, html, i, page != nil, out[len(out)-1], resumeAt)
 
 		i += 1
 		if resumeAt == nil && len(reportedFootnotes) == 0 {
